@@ -306,6 +306,16 @@ func registerIntrinsics(m *Machine) {
 	}
 	I["(*math/big.Int).Bytes"] = func(m *Machine, fr *frame, a []Value, c *ssa.CallCommon) Value {
 		abs := tt.IAbs(m.bigOf(a[0]))
+		if !abs.IsConst() && lenOnlyUse(fr) {
+			// only len(x.Bytes()) is observed: give the length as one term instead of forking
+			mx := m.maxBigBytes()
+			m.requireWithin(abs, 8*mx)
+			l := tt.BVConst(64, uint64(mx))
+			for k := mx - 1; k >= 0; k-- {
+				l = tt.Ite(tt.ILt(abs, tt.IntConst(new(big.Int).Lsh(big.NewInt(1), uint(8*k)))), tt.BVConst(64, uint64(k)), l)
+			}
+			return SliceV{SymLen: l}
+		}
 		n := m.bigByteLen(abs)
 		return m.sliceFromBytes(m.bigBytesBE(abs, n))
 	}
@@ -911,4 +921,27 @@ func registerMoreIntrinsics(m *Machine) {
 		const unixToInternal = 62135596800
 		return StructV{tt.BVConst(64, uint64(t.Nanosecond())), tt.BVConst(64, uint64(t.Unix()+unixToInternal)), PtrV{}}
 	}
+}
+
+// lenOnlyUse reports whether the value of the current call instruction is only passed to len().
+func lenOnlyUse(fr *frame) bool {
+	call, ok := fr.cur.(*ssa.Call)
+	if !ok || call.Referrers() == nil {
+		return false
+	}
+	n := 0
+	for _, r := range *call.Referrers() {
+		switch x := r.(type) {
+		case *ssa.DebugRef:
+		case *ssa.Call:
+			b, ok := x.Call.Value.(*ssa.Builtin)
+			if !ok || b.Name() != "len" {
+				return false
+			}
+			n++
+		default:
+			return false
+		}
+	}
+	return n > 0
 }
